@@ -1,16 +1,43 @@
 import Glom.Lemmas.C05TextTree
+import Glom.Lemmas.C05ReadTree
 /-
-  C05 — the lift from the rows of `_unpack_stack` to the rendered TEXT: the text
-  `format_target_spec_trace` produces for an evaluation tree satisfies the clauses of `checkC05`.
+  C05 — THE LIFT from the rows of `_unpack_stack` to the rendered TEXT: the text
+  `format_target_spec_trace` produces for an evaluation tree satisfies `checkC05`, every clause.
 
-  Domain: every well-formed evaluation tree (`Tree.wf`, as in Props/C05Spine), every width, every
-  error text function — the texts of specs, targets and errors are parameters (`Info.spec`,
-  `Info.target`, `errText`), with the hypotheses a clause needs on them stated where it needs them:
-    * a spec / target text has no line break (`NoNL`; Python's `repr` of the values the model of
-      bbrepr covers has none — line breaks inside strings are escaped);
-    * (clause 5 only) the lines of an error text carry no `Spec:` label after gutter characters
-      (`ErrLabelFree`) — an error text is printed verbatim, so a label line inside it would be read
-      as a line of the trace.
+  Domain: every well-formed evaluation tree (`Tree.wf`, as in Props/C05Spine; the driver checks on
+  every recorded real evaluation that it is one), every width, every error text function.  The
+  texts of specs, targets and errors are parameters (`Info.spec`, `Info.target`, `errText`: any
+  functions), with the hypotheses a clause needs on them stated where it needs them:
+    * a spec / target text has no line break (`NoNL`) — met by the model of bbrepr for every value
+      and every limits record (`c05_repr_one_line`, Props/C05Repr: `str.__repr__` escapes line
+      breaks), given that of the opaque leaves;
+    * the lines of an error text are passed by the reader of the checker (`ErrLabelFree` for
+      clause 5, `ErrQuiet` for clause 3): no `Target:` / `Spec:` label after gutter characters, no `\`
+      mark at a depth > 0 — an error text is printed verbatim, so such a line inside it would be
+      read as a line of the trace (Python's own exception texts have none; the text of a NESTED
+      glom error does);
+    * (clause 3) the identity of a target determines its text (`TidOK`), and no call entered after
+      the innermost failing call has a spec that, as rendered, reads as the innermost failing spec.
+  Every hypothesis is shown necessary by a concrete tree (`c05_text_needs_…`, by `decide`), and
+  satisfiable (the `example`s at the end).  The driver evaluates the hypotheses on every recorded
+  evaluation (`liftHypsOK`, Spec/C05Lift.lean: they hold on ~90 % of the generated cases) and
+  re-checks the conclusion there.
+
+    c05_text_clause1   the text begins with the root target
+    c05_text_clause2   the specs of the calls the root error propagated through, in order
+    c05_text_clause3   the target in force at the innermost failing spec's line is the one it received
+    c05_text_clause4   every failed branch of a call on the path: its spec line and its error text
+    c05_text_clause5   every top-level `Spec:` line shows a call that raised / a step of a chain that raised
+    c05_text_check     all of them: `checkC05 (events t) errText e (traceText (events t) errText e width)`
+    c05_text_lift_partial / c05_text_check_of_clause3   clauses 1, 2, 4, 5 without the hypotheses of clause 3
+
+  Method: the text is described generically (Lemmas/C05Text.lean, for every frame store that can be
+  rendered: the pieces of a text `allSegs`, the marks `\` / `X` only touch gutters `GPre`, the
+  `Spec:` lines of a text are those of its rendered rows `SLT_sublist` / `SLT_mem_shown`, error texts
+  `err_shown`, the lines of a branch are nested or quiet `nested_lines` / `branch_text`), the reader of
+  clause 3 as a fold (Lemmas/C05Read.lean), and the rows of a tree at every start that is rendered
+  (Lemmas/C05TextTree.lean, C05ReadTree.lean: by induction along the path of the root error, using
+  `rowsAt_spine` and the closed form of the frame store).
 -/
 set_option linter.unusedSimpArgs false
 namespace Glom.Props.C05
@@ -216,18 +243,65 @@ theorem c05_text_clause4 (t : Tree) (hwf : t.wf = true) (errText : Nat → Str) 
       exact InfAt_isInfix (err_shown (replay (events t)) errText t.err width _ 1 0 none true pe x hren hpe hpee hxe)
 
 
+/-! ### clause 3 -/
+
+/-- **clause 3 of `checkC05` holds of the model's text**: reading the text the way its indentation
+    asks (`targetsAtLastSpec`: a `Target:` line sets the target in force at its depth, the first
+    line of a branch inherits the target in force one level up), the target in force at the last
+    line that shows the innermost failing spec shows the target that spec received.
+    Hypotheses (`C3Hyp`):
+      * spec and target texts have no line break;
+      * the lines of error texts are passed by the reader (`ErrQuiet`: no `Target:` / `Spec:` label,
+        no `\` mark at a depth > 0) — an error text is printed verbatim;
+      * the identity of a target determines its text (`TidOK`: the `Target:` line of a row is left
+        out when the target IS the previous row's);
+      * no call entered after the innermost failing call has a spec that, as rendered, reads as
+        the innermost failing spec (the clause looks at the LAST line showing that spec). -/
+theorem c05_text_clause3 (t : Tree) (hwf : t.wf = true) (errText : Nat → Str) (width : Nat) (inner : CallInfo)
+    (hinner : (spine (callsOf (events t)) t.err).getLast? = some inner) (H : C3Hyp t errText width inner) :
+    clause3 inner (traceLines t errText width) = true := by
+  have hwf' := hwf
+  simp only [Tree.wf, Bool.and_eq_true] at hwf'
+  obtain ⟨hc, ho⟩ := hwf'
+  have hren := renderable_top t hc
+  have hstart : startOK t.err 1 t.root 1 = true := by simp [startOK, Tree.root, segRes, Kids.startsChained]
+  have hsp : (spine (callsOf (events t)) t.err).map (·.idx) = spineAt t.err 1 t.root 1 := by
+    rw [spine_events t ho]
+    simp [spineAt, Tree.root, spineK]
+  have hlast : (spineAt t.err 1 t.root 1).getLast? = some inner.idx := by
+    rw [← hsp, List.getLast?_map, hinner]; rfl
+  have him : inner ∈ callsOf (events t) := (List.mem_filter.mp (List.mem_of_getLast? hinner)).1
+  have key := read_path t hwf errText width inner H him _ _ 1 0 none ([], []) hstart (by omega) (Nat.le_refl _) hlast hren
+    (Or.inl ⟨rfl, rfl⟩)
+  obtain ⟨x, hx1, hx2⟩ := key
+  unfold clause3 targetsAtLastSpec traceLines
+  rw [go_eq, traceText_toList]
+  exact List.any_eq_true.mpr ⟨x, hx1, hx2⟩
+
 /-! ### the clauses together -/
 
-/-- **the lift, partial**: the text the model renders for a well-formed evaluation tree satisfies
-    clauses 1, 2, 4 and 5 of `checkC05` — at every width, for all spec / target texts without line
-    breaks and all error texts none of whose lines is read as a `Spec:` line.  What remains is
-    clause 3 (`clause3 inner lines`: the checker's reading of the target in force at the innermost
-    failing spec's line), see below. -/
-theorem c05_text_lift_partial (t : Tree) (hwf : t.wf = true) (errText : Nat → Str) (width : Nat)
-    (hrepr : ∀ c, c ∈ callsOf (events t) → NoNL c.spec ∧ NoNL c.target) (herr : ErrLabelFree errText) :
-    ∃ inner, (spine (callsOf (events t)) t.err).getLast? = some inner ∧
-      clausesC05 (events t) errText t.err (traceText (events t) errText t.err width) =
-        [true, true, clause3 inner (traceLines t errText width), true, true] := by
+/-- **THE LIFT: the text the model renders for a well-formed evaluation tree satisfies `checkC05`**
+    — every clause, at every width, by induction over the rows and over the nesting of the
+    branches.  The texts are parameters (`Info.spec`, `Info.target`, `errText`); the hypotheses on
+    them:
+      * `hrepr`  spec and target texts have no line break (the model of bbrepr meets this:
+                 `c05_repr_one_line`);
+      * `herr`   the lines of error texts are passed by the reader (`ErrQuiet`);
+      * `htid`   the identity of a target determines its text (`TidOK`);
+      * `hU`     no call entered after the innermost failing call has a spec that, as rendered (at
+                 a depth it can be rendered at), reads as the innermost failing spec.
+    `hrepr` is needed for clauses 1, 2, 4, 5 (`c05_text_needs_one_line`), `herr` for 3 and 5
+    (`c05_text_needs_label_free`, `c05_text_needs_quiet_errors`), `htid` and `hU` for clause 3 only
+    (`c05_text_needs_tid`, `c05_text_needs_distinct_spec`). -/
+theorem c05_text_check (t : Tree) (hwf : t.wf = true) (errText : Nat → Str) (width : Nat)
+    (hrepr : ∀ c, c ∈ callsOf (events t) → NoNL c.spec ∧ NoNL c.target) (herr : ErrQuiet errText)
+    (htid : TidOK (replay (events t)))
+    (hU : ∀ inner, (spine (callsOf (events t)) t.err).getLast? = some inner →
+      ∀ c, c ∈ callsOf (events t) → inner.idx < c.idx → ∀ d', d' < c.idx →
+        showsValue inner.spec inner.slen (formatValue c.spec c.slen ((width : Int) - ((d' + 9 : Nat) : Int))) = false) :
+    checkC05 (events t) errText t.err (traceText (events t) errText t.err width) = true := by
+  have hc : chainOk true t.root = true := by
+    simp only [Tree.wf, Bool.and_eq_true] at hwf; exact hwf.1
   have hroot : ∃ root, (callsOf (events t)).head? = some root := by
     rw [callsOf_events]; simp [callsK, Tree.root]
   obtain ⟨root, hroot⟩ := hroot
@@ -240,26 +314,16 @@ theorem c05_text_lift_partial (t : Tree) (hwf : t.wf = true) (errText : Nat → 
     simp at this
   obtain ⟨inner, hinner⟩ : ∃ inner, (spine (callsOf (events t)) t.err).getLast? = some inner :=
     ⟨_, List.getLast?_eq_some_getLast hspne⟩
-  refine ⟨inner, hinner, ?_⟩
-  unfold clausesC05
+  unfold checkC05 clausesC05
   simp only [hroot, hinner]
   have h1 := c05_text_clause1 t hwf errText width root hroot (hrepr root hrm).2
   have h2 := c05_text_clause2 t hwf errText width (fun c hc => (hrepr c hc).1)
+  have h3 := c05_text_clause3 t hwf errText width inner hinner
+    ⟨frames_one_line t hc hrepr, herr, htid, hU inner hinner⟩
   have h4 := c05_text_clause4 t hwf errText width (fun c hc => (hrepr c hc).1)
-  have h5 := c05_text_clause5 t hwf errText width hrepr herr
-  unfold traceLines at h1 h2 h4 h5
-  rw [h1, h2, h4, h5]
-  rfl
-
-/-- … so the model's text satisfies `checkC05` as soon as it satisfies clause 3 -/
-theorem c05_text_check_of_clause3 (t : Tree) (hwf : t.wf = true) (errText : Nat → Str) (width : Nat)
-    (hrepr : ∀ c, c ∈ callsOf (events t) → NoNL c.spec ∧ NoNL c.target) (herr : ErrLabelFree errText)
-    (h3 : ∀ inner, (spine (callsOf (events t)) t.err).getLast? = some inner →
-      clause3 inner (traceLines t errText width) = true) :
-    checkC05 (events t) errText t.err (traceText (events t) errText t.err width) = true := by
-  obtain ⟨inner, hi, hcl⟩ := c05_text_lift_partial t hwf errText width hrepr herr
-  unfold checkC05
-  rw [hcl, h3 inner hi]
+  have h5 := c05_text_clause5 t hwf errText width hrepr herr.labelFree
+  unfold traceLines at h1 h2 h3 h4 h5
+  rw [h1, h2, h3, h4, h5]
   rfl
 
 /-! ### the hypotheses are needed -/
@@ -286,6 +350,52 @@ theorem c05_text_needs_label_free :
       [true, true, true, true, false] := by
   decide +kernel
 
+/-- a chain `(p, S)` whose second step has the same spec text `S` as the call itself, a different
+    target, and fails; the call catches that and raises the root error itself: the LAST line
+    showing `S` is the step's, under the step's target -/
+def sameSpecTree : Tree :=
+  ⟨⟨"S".toList, "A".toList, 1, none, none⟩,
+   .cons false ⟨"p".toList, "A".toList, 1, none, none⟩ .nil none
+     (.cons true ⟨"S".toList, "B".toList, 2, none, none⟩ .nil (some 1) .nil),
+   2⟩
+
+/-- **`hU` is needed for clause 3** -/
+theorem c05_text_needs_distinct_spec :
+    sameSpecTree.wf = true ∧
+    clausesC05 (events sameSpecTree) (fun _ => "E".toList) 2
+      (traceText (events sameSpecTree) (fun _ => "E".toList) 2 80) = [true, true, false, true, true] := by
+  decide +kernel
+
+/-- a chain whose second step receives a target with another text but the same identity: no
+    `Target:` line is written for it -/
+def sameTidTree : Tree :=
+  ⟨⟨"X".toList, "A".toList, 1, none, none⟩,
+   .cons false ⟨"p".toList, "A".toList, 1, none, none⟩ .nil none
+     (.cons true ⟨"q".toList, "B".toList, 1, none, none⟩ .nil (some 9) .nil),
+   9⟩
+
+/-- **`htid` is needed for clause 3** -/
+theorem c05_text_needs_tid :
+    sameTidTree.wf = true ∧
+    clausesC05 (events sameTidTree) (fun _ => "E".toList) 9
+      (traceText (events sameTidTree) (fun _ => "E".toList) 9 80) = [true, true, false, true, true] := by
+  decide +kernel
+
+/-- two branches; the text of the error that ended the first has a line that reads as a `Target:`
+    line; the second raises the root error -/
+def targetErrTree : Tree :=
+  ⟨ii "Or(a, b)" "A",
+   .cons false (ii "a" "A") .nil (some 1) (.cons false (ii "b" "A") .nil (some 2) .nil),
+   2⟩
+
+/-- **`herr` (no `Target:` label in an error text) is needed for clause 3** -/
+theorem c05_text_needs_quiet_errors :
+    targetErrTree.wf = true ∧
+    clausesC05 (events targetErrTree) (fun e => if e = 1 then "E\n - Target: Z".toList else "F".toList) 2
+      (traceText (events targetErrTree) (fun e => if e = 1 then "E\n - Target: Z".toList else "F".toList) 2 80) =
+      [true, true, false, true, true] := by
+  decide +kernel
+
 /-! ### non-vacuity -/
 
 /-- `glom({'a': 1}, ('a', Coalesce('x', ('b', 'c'))))` (Props/C05Spine `exTree`): the hypotheses hold and
@@ -309,5 +419,62 @@ example : clausesC05 (events exTree2) (fun e => ("E" ++ toString e).toList) 3
 example : traceText (events exTree2) (fun e => ("E" ++ toString e).toList) 3 60 =
     " - Target: {'a': 1}\n - Spec: ('a', Coalesce('x', ('b', 'c')))\n - Spec: 'a'\n - Target: 1\n + Spec: Coalesce('x', ('b', 'c'))\n |\\ Spec: 'x'\n |X E1\n |\\ Spec: ('b', 'c')\n || Spec: 'b'\n || Spec: 'c'\n |X E2" := by
   decide +kernel
+
+
+/-- the hypotheses of `c05_text_check` are satisfiable: `exTree2` with one-line error texts -/
+example : checkC05 (events exTree2) (fun _ => "E".toList) 3 (traceText (events exTree2) (fun _ => "E".toList) 3 60) = true := by
+  have hc : chainOk true exTree2.root = true := by decide
+  apply c05_text_check exTree2 (by decide) (fun _ => "E".toList) 60
+  · -- no line breaks
+    have : ∀ c, c ∈ callsOf (events exTree2) → (c.spec.all (· != '\n') && c.target.all (· != '\n')) = true := by decide
+    intro c hcm
+    have h := this c hcm
+    simp only [Bool.and_eq_true, List.all_eq_true, bne_iff_ne, ne_eq] at h
+    exact ⟨fun x hx => h.1 x hx, fun x hx => h.2 x hx⟩
+  · -- quiet error texts
+    intro e l hl
+    have : l = "E".toList := by simpa [splitLines] using hl
+    subst this
+    decide
+  · -- target identities
+    exact tidOK_of_infos exTree2 hc (by decide)
+  · -- no later spec reads as the innermost failing one
+    intro inner hinner c hcm hlt d' hd'
+    have hi : inner.idx = 3 ∧ inner.spec = "Coalesce('x', ('b', 'c'))".toList ∧ inner.slen = none := by
+      have : (spine (callsOf (events exTree2)) exTree2.err).getLast?.map (fun c => (c.idx, c.spec, c.slen)) =
+          some (3, "Coalesce('x', ('b', 'c'))".toList, none) := by decide
+      rw [hinner] at this
+      simp only [Option.map_some, Option.some.injEq, Prod.mk.injEq] at this
+      exact this
+    obtain ⟨hi1, hi2, hi3⟩ := hi
+    rw [hi1] at hlt
+    rw [hi2, hi3]
+    have hall : ∀ c, c ∈ callsOf (events exTree2) → 3 < c.idx → c.idx ≤ 7 ∧ c.spec.length ≤ 12 ∧ c.slen = none ∧
+        c.spec ≠ "Coalesce('x', ('b', 'c'))".toList := by decide
+    obtain ⟨h7, hlen, hsl, hne⟩ := hall c hcm hlt
+    have hfit : formatValue c.spec c.slen ((60 : Nat) - ((d' + 9 : Nat) : Int)) = c.spec := by
+      rw [formatValue_eq, if_neg (by omega)]
+    rw [hfit]
+    -- a full spec text: it would have to be the innermost failing spec itself, or end in `...`
+    have hshow : ∀ s : Str, s ≠ "Coalesce('x', ('b', 'c'))".toList →
+        (∀ pre, s ≠ pre ++ "...".toList) → showsValue "Coalesce('x', ('b', 'c'))".toList none s = false := by
+      intro s h1 h2
+      simp only [showsValue, Bool.or_eq_false_iff, Bool.and_eq_false_iff]
+      refine ⟨by simpa using h1, Or.inl ?_⟩
+      cases hsx : isSuffix "...".toList s with
+      | false => rfl
+      | true =>
+        exfalso
+        unfold isSuffix at hsx
+        obtain ⟨r, hr⟩ := (isPrefix_iff _ _).mp hsx
+        have := congrArg List.reverse hr
+        simp only [List.reverse_reverse, List.reverse_append] at this
+        exact h2 r.reverse this
+    apply hshow c.spec hne
+    have hspecs : ∀ c, c ∈ callsOf (events exTree2) → 3 < c.idx → (isSuffix "...".toList c.spec) = false := by decide
+    intro pre hp
+    have := hspecs c hcm hlt
+    rw [hp, isSuffix_append_self] at this
+    exact absurd this (by simp)
 
 end Glom.Props.C05
